@@ -580,7 +580,9 @@ class CSVWriter extends rbql.RBQLOutputWriter {
 
     simple_join(fields) {
         var res = fields.join(this.delim);
-        if (fields.join('').indexOf(this.delim) != -1) {
+        // Same test as the Python writer: the line must split back into as many fields as were written.
+        // (Looking for the delimiter in fields.join('') misfires when it only appears across the junction of two fields.)
+        if (res.split(this.delim).length != fields.length) {
             this.delim_in_simple_output = true;
         }
         return res;
